@@ -339,6 +339,20 @@ def main():
                     r.status = 'timeout'
         if killed:
             log('note: %d cbmc process(es) killed by the RSS watchdog' % len(killed))
+        # second chance for harnesses that ran out of memory while 16 ran side by side: rerun them 4 at a time
+        oom = [h for h in hs if results[h.name].status == 'error' and 'out of memory' in results[h.name].raw]
+        if oom and len(oom) <= 8:
+            log('retrying %d obligation(s) that ran out of memory, 4 at a time' % len(oom))
+            cmd2 = KANI_BASE + ['--harness-timeout', '%ds' % budget, '-j', '4', '--output-format', 'terse', '--exact']
+            for h in oom:
+                cmd2 += ['--harness', full_name(h)]
+            rc2, out2, wall2, to2, killed2 = run_cmd(cmd2, WOVEN, 240 + budget * (1 + len(oom) // 4), KANI_ENV,
+                                                     os.path.join(BUILD, 'kani-%s-retry.log' % prop))
+            kani_wall += wall2
+            res2 = parse_terse(out2, [h.name for h in oom])
+            for h in oom:
+                if res2[h.name].status != 'missing':
+                    results[h.name] = res2[h.name]
 
     # 4. classify
     known = load_known_findings()
